@@ -317,6 +317,7 @@ pub fn run_check<P: Property>(p: &P, tier: Tier) -> i32 {
     let known_set: BTreeSet<String> =
         known.iter().filter(|k| k.status == "known").map(|k| k.signature.clone()).collect();
     let _ = std::fs::remove_dir_all(scratch_root(id));
+        let _ = std::fs::remove_dir_all(Path::new(VERIF).join("work").join(format!("workers-{}", std::process::id())));
     if let Err(e) = p.prepare(tier) {
         println!("INCONCLUSIVE property={id} prepare failed: {e}");
         return 2;
@@ -535,6 +536,7 @@ pub fn run_check<P: Property>(p: &P, tier: Tier) -> i32 {
     std::fs::write(evdir.join(format!("{id}.json")), serde_json::to_string_pretty(&ev).unwrap())
         .expect("write evidence");
     let _ = std::fs::remove_dir_all(scratch_root(id));
+        let _ = std::fs::remove_dir_all(Path::new(VERIF).join("work").join(format!("workers-{}", std::process::id())));
 
     crate::note!(
         "[{id}] {} tier: {} evaluations, {} distinct non-trivial, {} violations, {} known hits, {:.1}s",
@@ -575,6 +577,7 @@ pub fn run_replay<P: Property>(p: &P, path: &Path) -> i32 {
     }
     if std::env::var_os("BGV_KEEP").is_none() {
         let _ = std::fs::remove_dir_all(scratch_root(id));
+        let _ = std::fs::remove_dir_all(Path::new(VERIF).join("work").join(format!("workers-{}", std::process::id())));
     } else {
         println!("scratch kept under {}", scratch_root(id).display());
     }
